@@ -344,7 +344,94 @@ class C20(Prop):
                     res.model_disagreements.append(dict(key="c20:lazy", case=case, detail=f"impl {got} model {want}"))
 
 
-REGISTRY = {"C02": C02(), "C20": C20()}
+# ------------------------------------------------------------------------------------------
+# C09
+
+class C09(Prop):
+    rule = ("every code point through \\uXXXX escapes / surrogate pairs (sampled every 257th in quick, all 1,114,112 in thorough), fixed malformed "
+            "literals, a sweep placing an escape / quote / backslash / control / 2-3-4-byte character / bad escape / invalid byte at a "
+            "position 0..130 of a string of length 0..200 at start offset 0..64, and random bodies with mutations; each literal is decoded "
+            "as a whole document and as element 0 of an array with varying tails; non-trivial = the literal contains an escape, a "
+            "multi-byte character or is rejected")
+    trusted = ["the 32-byte StringBlock loops are modelled by their scalar meaning (first quote/backslash/control byte)",
+               "String::from_utf8_lossy is specified by Spec.utf8Lossy (maximal-subpart replacement), compared on every lossy case"]
+    assumptions = ["error codes of the decoders are not compared in this stream (C20 compares them for the skip path)"]
+
+    def explore(self, ctx, res):
+        name = "c09"
+        cases_path = generate(ctx, name)
+        impl, model, crashed, err = run_stream(ctx, name, cases_path)
+        with open(cases_path) as f:
+            cases = f.read().splitlines()
+        if crashed or len(impl) != len(cases):
+            idx = min(len(impl), len(cases) - 1)
+            res.oracle_failures.append(dict(key="c09:process-abort", case=cases[idx], detail=f"harness died after {len(impl)} cases: {err[-300:]}"))
+        n = min(len(impl), len(cases))
+        for i in range(n):
+            res.evaluations += 1
+            case = cases[i]
+            I = ctx["parse_fields"](impl[i])
+            M = ctx["parse_fields"](model[i]) if model and i < len(model) else {}
+            if len(res.samples) < 6 and i % max(1, n // 6) == 0:
+                res.samples.append({"case": case[:200], "impl": impl[i][:300], "model": (model[i][:300] if model and i < len(model) else None)})
+            if not M or "spec.strict" not in M:
+                continue
+            ss = M["spec.strict"]
+            s_ok = ss.startswith("S:")
+            s_hex = ss.split(":")[1] if s_ok else None
+            valid = s_ok and M["utf8"] == "A" and M["doc"] == "A"
+            exp_strict = f"S:{s_hex}" if valid else "R"
+            bs = M.get("bs") == "1"
+            if bs or not s_ok or (s_hex and any(b >= 0x80 for b in unhex(s_hex))):
+                res.nontrivial(case)
+            res.distribution["strict=" + ("ok" if s_ok else "reject")] += 1
+            res.distribution["escape=" + ("1" if bs else "0")] += 1
+            # model self-consistency (the theorem decode_correct, observed)
+            mv = M["m.strict"]
+            mview = ":".join(mv.split(":")[:3]) if mv.startswith("S:") else "R"
+            if mview != ss:
+                res.model_disagreements.append(dict(key="c09:model-vs-spec(strict)", case=case, detail=f"{mv} vs {ss}"))
+            if mv.startswith("S:") and (mv.split(":")[3] == "1") != bs:
+                res.model_disagreements.append(dict(key="c09:model-escaped-flag", case=case, detail=f"{mv} bs={bs}"))
+            exp = {"inplace": exp_strict, "copy": exp_strict, "key": exp_strict, "mapkey": exp_strict}
+            exp["cow"] = (("O:" if bs else "B:") + s_hex) if valid else "R"
+            exp["bstr"] = exp_strict if (valid and not bs) else "R"
+            exp["getkey"] = "F:30" if valid else None
+            t = unhex(case.split(" ")[1])
+            ls = int(case.split(" ")[2])
+            kind = case.split(" ")[3]
+            # LazyValue / get: grammar-level acceptance of the literal (kind a: `get` looks at the
+            # traversed prefix and the value only), as_str decodes strictly
+            lazy_ok = (M["utf8"] == "A" and M["docg"] == "A") if kind == "p" else (M["g"] == "A" and M["pre8"] == "A")
+            if lazy_ok:
+                j = ls + 1
+                while j < len(t):
+                    if t[j] == 0x5c:
+                        j += 2
+                        continue
+                    if t[j] == 0x22:
+                        break
+                    j += 1
+                raw = t[ls:j + 1].hex()
+                exp["lazystr"] = (f"S:{s_hex}" if s_ok else "R") + ":" + raw
+            else:
+                exp["lazystr"] = "R"
+            exp["lossy_inplace"] = M["spec.lossy"] if M["docg"] == "A" else "R"
+            exp["lossy_copy"] = exp["lossy_inplace"]
+            for k, want in exp.items():
+                if want is None or k not in I:
+                    continue
+                got = I[k]
+                if got == "PANIC":
+                    res.oracle_failures.append(dict(key=f"C09|{k}|panic", case=case, detail="panicked"))
+                elif got != want:
+                    cls = "decodes-differently" if (got[:1] in "SBOF" and want[:1] in "SBOF") else ("accepts-malformed" if want == "R" else "rejects-wellformed")
+                    res.oracle_failures.append(dict(key=f"C09|{k}|{cls}", case=case, detail=f"impl {k}={got[:120]} spec {want[:120]}"))
+            if "ref" in I and I["ref"] != exp_strict and len(res.adequacy) < 30:
+                res.adequacy.append(f"{case[:100]}: serde_json {I['ref'][:60]} spec {exp_strict[:60]}")
+
+
+REGISTRY = {"C02": C02(), "C20": C20(), "C09": C09()}
 
 
 def get(pid):
